@@ -2,6 +2,7 @@ from typing import Sequence, Any
 from sympy import Expr, integrate, simplify
 from symplyphysics import Vector, dot_vectors, vector_magnitude, vector_unit
 from ..fields.operators import curl_operator, divergence_operator
+from ..fields.scalar_field import ScalarField
 from ..fields.vector_field import VectorField
 from ..geometry.elements import parametrized_curve_element, parametrized_curve_element_magnitude, volume_element_magnitude
 from ..geometry.normals import parametrized_curve_normal, parametrized_surface_normal
@@ -87,7 +88,9 @@ def flux_across_surface_boundary(
 ) -> Expr:
     (parameter1, parameter1_from, parameter1_to) = parameter_and_limits1
     (parameter2, parameter2_from, parameter2_to) = parameter_and_limits2
-    field_divergence = divergence_operator(field)
+    # the divergence should be evaluated on the surface
+    field_divergence = ScalarField.from_expression(divergence_operator(field),
+        field.coordinate_system).apply(surface)
     surface_vector = Vector(surface, field.coordinate_system)
     surface_element_vector = parametrized_surface_normal(surface_vector, parameter1, parameter2)
     surface_element_magnitude = vector_magnitude(surface_element_vector)
